@@ -85,7 +85,7 @@ CATALOGUE: list[tuple] = [
     ("unescape-x-cursor", ["C12"], UNESCAPE, "        return chr(_parse_hex_digits(digits, token)), index + 2", "        return chr(_parse_hex_digits(digits, token)), index + 3", "fire", "_decode_escape_sequence"),
     ("unescape-value-error", ["C11"], UNESCAPE, "        if codepoint > 0x10FFFF:  # noqa: PLR2004\n            raise PestGrammarSyntaxError(\n                \"\\\\u{XXXX} escape sequence is not a Unicode code point\", token=token\n            )\n        return chr(codepoint), index", "        return chr(codepoint), index", "fire", "chr(codepoint)"),
     # ---- optimizer / pratt
-    ("optimizer-touches-builtins", ["C15", "C02"], OPT, "                if isinstance(rule, BuiltInRule):\n", "                if isinstance(rule, BuiltInRule) and name == \"EOI\":\n", "fire", "Optimizer.optimize"),
+    ("optimizer-touches-builtins", ["C15", "C02"], OPT, "                if isinstance(rule, BuiltInRule):\n", "                if isinstance(rule, BuiltInRule) and name == \"EOI\":\n", "silent", ""),  # since b884c9e rewritten rules are stored as copies: rewriting a built-in no longer touches the shared object
     ("skip-not-atomic-only", ["C02"], OPT, 'OptimizerStep("skip", skip, PassDirection.PREORDER, atomic_only=True),', 'OptimizerStep("skip", skip, PassDirection.PREORDER),', "fire", "skip"),
     ("unroll-min-off-by-one", ["C02"], "src/pest/grammar/optimizers/unroller.py", "            return Sequence(*chain(repeat(inner, num), [Repeat(inner)]))", "            return Sequence(*chain(repeat(inner, num - 1), [Repeat(inner)]))", "fire", "RepeatMin"),
     ("repeatmin-init-off-by-one", ["C03", "C04"], POSTFIX, "        self._unrolled = Sequence(*repeat(expression, number), Repeat(expression))", "        self._unrolled = Sequence(*repeat(expression, number + 1), Repeat(expression))", "fire", "RepeatMin"),
@@ -102,7 +102,7 @@ CATALOGUE: list[tuple] = [
     ("S-scanner-error-local", ["C11"], SCANNER, "        value = self.grammar[self.pos : self.pos + 1]", "        at = self.pos\n        value = self.grammar[at : at + 1]", "silent", ""),
     ("S-pratt-bound-ifexp", ["C18"], PRATT, "prec + (0 if right_assoc else 1)", "(prec if right_assoc else prec + 1)", "silent", ""),
     # ---- rules added after the seeded round
-    ("order-empty-literal", ["C02"], CHOICE, "        if isinstance(a, UnicodePropertyRule) or not b.value:", "        if isinstance(a, UnicodePropertyRule):", "fire", "is_order_independent"),
+    ("order-empty-literal", ["C02"], CHOICE, "        if isinstance(a, UnicodePropertyRule) or not b.value:", "        if isinstance(a, UnicodePropertyRule):", "fire", ""),
     ("order-range-end-exclusive", ["C02"], CHOICE, "        return any(a.start <= v <= a.end for v in variants if len(v) == 1)", "        return any(a.start <= v < a.end for v in variants if len(v) == 1)", "fire", "is_order_independent"),
     ("skip-no-visited-set", ["C11"], SKIPPERS, "        if rule and expr.value not in seen:", "        if rule:", "fire", "GRAPH-RECURSION"),
     ("parse-int-unbounded", ["C11"], GPARSER, "        if not -(2**31) <= value < 2**32:\n            raise PestGrammarSyntaxError(\"number out of range\", token=token)\n        return value", "        return value", "fire", "NUM-BOUND"),
@@ -116,7 +116,7 @@ CATALOGUE: list[tuple] = [
     ("pratt-prefix-max", ["C18"], PRATT, "            prec = self.PREFIX_OPS[token.name]", "            prec = max(self.PREFIX_OPS[token.name], min_prec)", "fire", "prefix"),
     ("S-merge-branches-inverted", ["C12"], CHOICE, "        if not merged or s > merged[-1][1] + 1:\n            merged.append([s, e])\n        else:\n            merged[-1][1] = max(merged[-1][1], e)", "        if merged and s <= merged[-1][1] + 1:\n            merged[-1][1] = max(merged[-1][1], e)\n        else:\n            merged.append([s, e])", "silent", ""),
     ("S-order-overlap-ord-form", ["C02"], CHOICE, "        return any(a.start <= v <= a.end for v in variants if len(v) == 1)", "        return any(ord(a.start) <= ord(v) <= ord(a.end) for v in variants if len(v) == 1)", "silent", ""),
-    ("S-error-context-named-flag", ["C13"], EXC, "    lines = text.splitlines(keepends=True)\n    cumulative_length = 0", "    lines = text.splitlines(True)\n    cumulative_length = 0", "silent", ""),
+    ("S-error-context-named-flag", ["C13"], EXC, "    lines = text.splitlines(keepends=True)\n    cumulative_length = 0", "    lines = text.splitlines(True)\n    cumulative_length = 0", "silent-or-undecided", ""),  # the edit is inside the slice a SAFE triage entry was written for: exit 2 (re-triage) is accepted
     ("S-skipuntil-min-builtin", ["C02", "C16"], TERMINALS, "            if pos != -1 and (best_index is None or pos < best_index):\n                best_index = pos", "            if pos != -1:\n                best_index = pos if best_index is None else min(best_index, pos)", "silent", ""),
     ("scanner-no-trivia-before-assign", ["C10"], SCANNER, "        self.skip_trivia()\n\n        if self.peek() == \"=\":\n            self.emit(TokenKind.ASSIGN_OP, self.next())\n        else:\n            return self.error(\"expected the assignment operator\")", "        if self.peek() == \"=\":\n            self.emit(TokenKind.ASSIGN_OP, self.next())\n        else:\n            return self.error(\"expected the assignment operator\")", "fire", "TRIVIA"),
     ("scanner-no-trivia-in-range", ["C10"], SCANNER, "            self.emit(TokenKind.CHAR, value)\n            self.skip_trivia()\n\n            if value := self.scan(RE_RANGE_OP):", "            self.emit(TokenKind.CHAR, value)\n\n            if value := self.scan(RE_RANGE_OP):", "fire", "TRIVIA"),
@@ -175,6 +175,8 @@ def run_variant(entry: tuple, prop: str) -> dict:
             ok = fired and (not mention or mention in out)
         elif expect == "silent":
             ok = p.returncode == 0
+        elif expect == "silent-or-undecided":
+            ok = p.returncode in (0, 2) and "VIOLATION property=" not in out
         else:
             ok = p.returncode in (0, 1)
         return {"id": vid, "status": "ok" if ok else "WRONG", "expect": expect, "rc": p.returncode, "tail": out.strip().splitlines()[-3:] if not ok else []}
@@ -210,7 +212,7 @@ def seeded_variants(prop: str) -> list[Path]:
             meta = d / "meta.json"
             if meta.exists():
                 m = json.loads(meta.read_text())
-                if prop in m.get("caught_by", []):
+                if prop in m.get("caught_by", []) and not m.get("superseded"):
                     out.append(d)
     return out
 
@@ -221,9 +223,8 @@ def run_seed(seed_dir: Path, prop: str) -> dict:
         _copy_tree(tmp)
         p = subprocess.run(["git", "apply", "--unsafe-paths", f"--directory={tmp}", str(seed_dir / "patch.diff")], cwd="/", capture_output=True, text=True)
         if p.returncode != 0:
-            p = subprocess.run(["patch", "-p1", "-s", "-d", str(tmp), "-i", str(seed_dir / "patch.diff")], capture_output=True, text=True)
-            if p.returncode != 0:
-                return {"id": seed_dir.name, "status": "skipped", "why": "patch no longer applies"}
+            # no fuzzy fallback: a patch that only applies with fuzz is not the change that was confirmed
+            return {"id": seed_dir.name, "status": "skipped", "why": "patch no longer applies"}
         env = dict(os.environ)
         env["SA_REPO"] = str(tmp)
         env["SA_NO_EVIDENCE"] = "1"
